@@ -63,7 +63,7 @@ def auth_case(a, e):
                      "user_handle": a["user_handle"].hex() if a.get("user_handle") is not None else None},
             "expect": {"challenge": e["challenge"].hex(), "rp_id": e["rp_id"], "origin": e["origin"],
                        "public_key": e["public_key"].hex(), "stored_count": str(e["stored_count"]),
-                       "require_uv": e["require_uv"]}}
+                       "require_uv": bool(e["require_uv"])}}
 
 
 # ------------------------------------------------------------------ parsers
